@@ -45,6 +45,8 @@ Shear(n) == Strict([j \in 1..n * n |-> LET r == (j - 1) \div n + 1  c == ((j - 1
                                        IN IF r = c THEN QOne ELSE IF c = r + 1 THEN QI(2) ELSE QZero])
 
 (* ---------------------------- catalogue --------------------------------- *)
+\* leaf filters name ops; the name "Lin" stands for the LINEAR leaf <b, x> (QuadraticForm(vector=b), is_linear)
+LeafMatches(l, F) == IF F = {"Lin"} THEN l.op = "Quad" /\ l.v = <<>> /\ l.c = QZero ELSE l.op \in F
 Catalogue(sp) ==
   LET n == Dim(sp)
       scalarSpace == sp.m = 1
@@ -56,17 +58,20 @@ Catalogue(sp) ==
          Leaf("IndBall2"), Leaf("IndBallInf"),
          LeafSC("Const", QZero, QI(3)),
          Mk("Quad", QZero, QOne, RConst(n, QI(2)), PVecT(n), <<>>),      \* 2|x|^2 + <b,x> + 1 (ScalingOperator)
-         Mk("Quad", QZero, QOne, <<>>, PVecT(n), <<>>),                  \* linear <b,x> + 1
+         Mk("Quad", QZero, QOne, <<>>, PVecT(n), <<>>),                  \* affine <b,x> + 1
+         Mk("Quad", QZero, QZero, <<>>, PVecT(n), <<>>),                 \* LINEAR <b,x> (is_linear: rewrites f*s into s*f)
          Mk("KL", QZero, QZero, PVecG(n), <<>>, <<>>),
          Mk("KLcc", QZero, QZero, PVecG(n), <<>>, <<>>)}
       scal == {Leaf("Linf"), Leaf("IndBall1"), LeafS("IndSum", QOne), LeafS("IndSimplex", QI(2)),
                Mk("Quad", QZero, QZero, PVecD(n), <<>>, <<>>)}                 \* <x, diag x>  (MatrixOperator)
-      vf   == {Leaf("GroupL1"), Leaf("IndGroupBall")}
+      \* group functionals with every point-wise exponent of the parametrised pair (field s: 1, default 2, Inf)
+      vf   == {Leaf("GroupL1"), LeafS("GroupL1", QOne), LeafS("GroupL1", Inf),
+               Leaf("IndGroupBall"), LeafS("IndGroupBall", QOne), LeafS("IndGroupBall", Inf)}
       \* documented domains: Huber needs a tensor or POWER space, the KL functionals a tensor space
       het  == {l \in all : l.op \notin {"Huber", "KL", "KLcc"}}
       cat  == (IF sp.kind = "pspace" THEN het ELSE all) \cup
               (IF scalarSpace THEN scal ELSE {}) \cup (IF IsVF(sp) THEN vf ELSE {})
-  IN IF LeafFilter = {} THEN cat ELSE {l \in cat : l.op \in LeafFilter}
+  IN IF LeafFilter = {} THEN cat ELSE {l \in cat : LeafMatches(l, LeafFilter)}
 
 \* smooth finite operands for the binary rules
 SecondOperands(sp) ==
@@ -107,7 +112,9 @@ Applicable(r, e) ==
 (* ------------------------------ actions --------------------------------- *)
 Budget == IF Len(stack) = 2 THEN stack[1].k + stack[2].k + 1 ELSE IF Len(stack) = 1 THEN stack[1].k ELSE 0
 \* a second rule is stacked only on the leaves named in DeepLeaves (run partitioning / tier bound)
-DeepOk(e) == IF e.k = 0 \/ DeepLeaves = {} THEN TRUE ELSE e.f.args[1].op \in DeepLeaves
+RECURSIVE FirstLeaf(_)
+FirstLeaf(f) == IF IsLeaf(f) THEN f ELSE FirstLeaf(f.args[1])
+DeepOk(e) == IF e.k = 0 \/ DeepLeaves = {} THEN TRUE ELSE LeafMatches(FirstLeaf(e.f), DeepLeaves)
 
 Init == stack = <<>>
 PushLeaf   == /\ stack = <<>>
